@@ -204,7 +204,7 @@ fn evaluate(b: usize, g: &[u64], acc: &Acc, only: Option<&[usize]>) -> (Vec<Flag
 
 fn seeds_for(ctx: &Ctx, b: usize) -> usize {
     match (ctx.tier, ctx.is_dbg()) {
-        (Tier::Quick, false) => if b <= 12 { 2000 } else if b <= 15 { 600 } else { 300 },
+        (Tier::Quick, false) => if b <= 12 { 2000 } else if b <= 15 { 800 } else { 600 },
         (Tier::Thorough, false) => if b <= 12 { 20_000 } else if b <= 15 { 6000 } else { 2500 },
         (_, true) => 0,
     }
